@@ -213,6 +213,30 @@ class Facts:
 
     def one(s, pattern, crate=None, kind=None):
         r = s.find(pattern, crate, kind)
+        if len(r) == 0 and "|" not in pattern:
+            # the function may have moved to another module: retry with the last two path segments (Type::method)
+            segs, depth, cur = [], 0, ""
+            for ch in pattern:
+                if ch in "<(":
+                    depth += 1
+                elif ch in ">)":
+                    depth -= 1
+                if ch == ":" and depth == 0 and cur.endswith(":"):
+                    segs.append(cur[:-1])
+                    cur = ""
+                else:
+                    cur += ch
+            segs.append(cur)
+            if len(segs) > 2:
+                tail = "::".join(segs[-2:])
+                r2 = s.find(r"(^|::|<impl [^>]*)" + tail if not tail.startswith("<") else tail, crate, kind)
+                if len(r2) == 0 and not segs[-1].startswith("<") and re.match(r"^[a-z_0-9]+\$?$", segs[-1]):
+                    # a free function moved to another module: its own name, if unique among non-method functions
+                    r2 = [f for f in s.find(r"::" + segs[-1], crate, kind) if f.kind == "Fn"]
+                if len(r2) == 1:
+                    s.relocated = getattr(s, "relocated", [])
+                    s.relocated.append((pattern, r2[0].qpath))
+                    return r2[0]
         if len(r) != 1:
             raise AnchorMissing("expected exactly one function matching %r, found %d: %s" % (
                 pattern, len(r), [f.qpath for f in r][:6]))
